@@ -430,7 +430,22 @@ def _plugin():
 
 # =============================================================================== recipes
 def is_ident(s):
-    return bool(IDENT_RE.match(s)) and s not in RESERVED and not s.startswith("_")
+    return (bool(IDENT_RE.match(s)) and s not in RESERVED and s.lower() not in RESERVED | {"null", "yes", "no"}
+            and not s.startswith("_"))
+
+
+def formula_safe(spec):
+    """`${{name.field}}` re-reads a str through ast.literal_eval (Jinja native types): keep the
+    formula probe to values whose re-read is again a plain scalar (the probe compares first and
+    continued runs, so the distortion itself is harmless; a list / Ellipsis would fail the run)"""
+    if spec[0] != "str":
+        return spec[0] in ("int", "float", "bool", "null", "date", "datetime")
+    import ast
+    try:
+        v = ast.literal_eval(spec[1])
+    except Exception:
+        return True
+    return type(v) in (str, int, float, bool, type(None))
 
 
 def literal_ok(spec, version):
@@ -479,8 +494,7 @@ def build_recipe(case, second):
             for fn, spec in [["id", ["int", 0]]] + t["fields"]:
                 peeks.append([h, fn])
                 probe[f"p{len(peeks) - 1}"] = {"Vals.peek": len(peeks) - 1}
-                if (case["version"] == 3 and is_ident(h) and is_ident(fn)
-                        and spec[0] not in ("ref", "randref", "objref", "decimal")):
+                if case["version"] == 3 and is_ident(h) and is_ident(fn) and formula_safe(spec):
                     probe[f"q{len(peeks) - 1}"] = "${{%s.%s}}" % (h, fn)
     peeks.append(["today", None])
     probe["ptoday"] = {"Vals.peek": len(peeks) - 1}
@@ -517,7 +531,7 @@ def make_capture():
     return Capture()
 
 
-def one_run(recipe_text, values, peeks, continuation):
+def one_run(recipe_text, values, peeks, continuation, target=None):
     """one generate() call with a continuation file requested.
     -> {"rows", "log", "run_err", "dump_err", "text", "saved"(abstraction of the Globals handed to save)}"""
     from snowfakery import data_generator as DG
@@ -528,7 +542,7 @@ def one_run(recipe_text, values, peeks, continuation):
     plug.PEEKS[:] = [tuple(p) for p in peeks]
     plug.LOG[:] = []
     cap = make_capture()
-    app = SnowfakeryApplication(StoppingCriteria("__REPS__", 1))
+    app = SnowfakeryApplication(StoppingCriteria(PROBE_TABLE, target) if target else StoppingCriteria("__REPS__", 1))
     app.echo = lambda *a, **k: None
     out = io.StringIO()
     seen = {}
@@ -679,7 +693,7 @@ def run_recipe_case(case):
     hops = []
     cur = fed
     for _ in range(case.get("hops", 1)):
-        r = one_run(text_r2, values2, peeks2, cur)
+        r = one_run(text_r2, values2, peeks2, cur, target=case.get("target"))
         h = {k: r[k] for k in ("rows", "log", "run_err", "dump_err")}
         h["msg"] = r.get("run_msg") or r.get("dump_msg")
         if r["text"] is not None:
@@ -800,12 +814,34 @@ def run_impl(case):
 # =============================================================================== model side
 def coq_case(case, obs):
     terms = []
+    shared = {}          # big sub-terms (trees, states) are written once and bound with `let`
+
+    def sh(term):
+        if len(term) < 200:
+            return term
+        if term not in shared:
+            shared[term] = f"x{len(shared)}"
+        return shared[term]
+
+    def G(a):
+        return sh(globals_coq(a))
+
+    def T(t):
+        return sh(tree_coq(t))
 
     def add(f):
         try:
             terms.append(f())
         except (Unrenderable, KeyError, TypeError, IndexError):
             pass
+
+    def finish():
+        if not terms:
+            return None
+        body = C.clist(terms)
+        for term, name in reversed(list(shared.items())):
+            body = f"let {name} := {term} in {body}"
+        return f"({body})"
 
     k = obs.get("kind")
     if k in ("recipe", "direct"):
@@ -816,32 +852,32 @@ def coq_case(case, obs):
         if saved is None or saved.get("transient_objects"):
             return None
         if base.get("dump_err"):
-            add(lambda: f"CSave {globals_coq(saved)} (Err {C.cerr(base['dump_err'])})")
-            return C.clist(terms) if terms else None
+            add(lambda: f"CSave {G(saved)} (Err {C.cerr(base['dump_err'])})")
+            return finish()
         if obs.get("tree1", ["unparsable"])[0] == "unparsable":
             return None
-        add(lambda: f"CSave {globals_coq(saved)} (Ok {tree_coq(obs['tree1'])})")
-        add(lambda: f"CLoad {tree_coq(obs['tree1'])} {_res(obs['load1'], globals_coq)}")
+        add(lambda: f"CSave {G(saved)} (Ok {T(obs['tree1'])})")
+        add(lambda: f"CLoad {T(obs['tree1'])} {_res(obs['load1'], G)}")
         if obs.get("shifted"):
-            add(lambda: f"CLoad {tree_coq(obs['tree_fed'])} {_res(obs['load_fed'], globals_coq)}")
+            add(lambda: f"CLoad {T(obs['tree_fed'])} {_res(obs['load_fed'], G)}")
         n = len(obs.get("reload") or [])
         if n and obs.get("tree_chain") and all("same" in s for s in obs["reload"]):
             start = obs["load_fed"] if obs.get("shifted") else obs["load1"]
             if "ok" in start and start["ok"] is not None:
                 # file_n = save(load(file_{n-1})): n loads and n saves, the first load gave `start`
-                add(lambda: f"CChain {globals_coq(start['ok'])} {C.cnat(n - 1)} (Ok {tree_coq(obs['tree_chain'])})")
+                add(lambda: f"CChain {G(start['ok'])} {C.cnat(n - 1)} (Ok {T(obs['tree_chain'])})")
         if k == "recipe":
             add(lambda: f"CFresh {tpls_coq(template_list(case, False))} {_nat_of(obs['tree1'])}")
             hops = obs.get("hops") or []
             if hops and hops[0].get("tree") and not hops[0].get("run_err"):
                 fed = obs["tree_fed"] if obs.get("shifted") else obs["tree1"]
-                add(lambda: f"CResume {tree_coq(fed)} {tpls_coq(template_list(case, True))} "
+                add(lambda: f"CResume {T(fed)} {tpls_coq(template_list(case, True))} "
                             f"(Ok {_nat_of(hops[0]['tree'])})")
     elif k == "malformed":
         if obs["fed"][0] == "unparsable":
             return None
         add(lambda: f"CLoad {tree_coq(obs['fed'])} {_res(obs['load'], globals_coq)}")
-    return C.clist(terms) if terms else None
+    return finish()
 
 
 def _nat_of(tree):
@@ -868,6 +904,7 @@ def _rows_dict(rows):
 def restored_check(g0, g1, check_today=True):
     """everything later iterations can observe in g0 (state when the file was written) is in g1
     (state rebuilt from the file), value by value, type by type"""
+    dropped = None
     if dict(map(tuple, g1["last_used"])) != dict(map(tuple, g0["last_used"])):
         return f"ids-not-restored: id counters {g0['last_used'][:6]} were restored as {g1['last_used'][:6]}"
     if dict(map(tuple, g1["nat"])) != dict(map(tuple, g0["nat"])):
@@ -887,9 +924,9 @@ def restored_check(g0, g1, check_today=True):
             for f, v in vals.items():
                 w = b[name][1].get(f)
                 if v[0] == "row":
-                    if w is None:
-                        return (f"row-valued-field-dropped: field {f!r} of the row reachable by {how} {name!r} held "
-                                f"a row of {v[1]!r}; it is absent after loading the file")
+                    if w is None and dropped is None:   # finding class K1: reported last, so that it hides nothing
+                        dropped = (f"row-valued-field-dropped: field {f!r} of the row reachable by {how} {name!r} "
+                                   f"held a row of {v[1]!r}; it is absent after loading the file")
                     continue
                 if w is None:
                     return f"field-missing: field {f!r} of the row reachable by {how} {name!r} is absent after loading"
@@ -901,7 +938,7 @@ def restored_check(g0, g1, check_today=True):
                 return f"field-invented: row {name!r} has new fields {sorted(extra)[:4]} after loading"
         if set(b) - set(a):
             return f"row-invented: {which} {sorted(set(b) - set(a))[:4]} appear after loading"
-    return None
+    return dropped
 
 
 def _tree_get(tree, *path):
@@ -987,11 +1024,13 @@ def oracle_common(obs, base, what):
         return None
     if "err" in lo:
         return f"reload-raised: loading the written file raised {lo['err']}: {lo.get('msg')}"
+    deferred = None
     if lo["ok"] is not None and base.get("saved") is not None:
         m = restored_check(base["saved"], lo["ok"])
-        if m:
+        if m and not m.startswith("row-valued-field-dropped:"):
             return m
-    return oracle_reload(obs, what)
+        deferred = m
+    return oracle_reload(obs, what) or deferred
 
 
 def _tree_diff(a, b, path=""):
@@ -1030,9 +1069,11 @@ def oracle(case, obs):
         if r1["run_err"] != "DGE":
             return f"internal-error: first run raised {r1['run_err']}: {r1.get('msg')}"
         return None           # premise (the run completes) does not hold
+    deferred = None
     m = oracle_common(obs, r1, "file")
-    if m:
+    if m and not m.startswith("row-valued-field-dropped:"):
         return m
+    deferred = m
     t1 = obs["tree1"]
     # (iii) id counters, today, dependencies in the file, from the first run's own output
     ids = _tree_ids(t1)
@@ -1050,7 +1091,8 @@ def oracle(case, obs):
     fd = _tree_deps(t1)
     want = _deps_of_rows(r1["rows"])
     if fd is not None:
-        fd = [d for d in fd if not d[0].startswith("__")]      # rows of hidden tables are not written
+        # rows of hidden tables and hidden fields (names starting with __) are not handed to output streams
+        fd = [d for d in fd if not d[0].startswith("__") and not d[2].startswith("__")]
     if fd is not None and sorted(fd) != sorted(want):
         return f"deps-in-file: rows written imply references {want[:5]}, the file lists {fd[:5]}"
     if obs.get("shifted"):
@@ -1069,6 +1111,10 @@ def oracle(case, obs):
             return f"continued-run-fails: {nth} raised {h['run_err']}: {h.get('msg')}"
         if h.get("dump_err"):
             return f"dump-raised: writing the continuation file after {nth} raised {h['dump_err']}: {h.get('msg')}"
+        made = sum(1 for t, _ in h["rows"] if t == PROBE_TABLE)
+        if made != (case.get("target") or 1):
+            return (f"ids-not-restored: {nth} was asked for {case.get('target') or 1} more rows of {PROBE_TABLE!r} "
+                    f"(counted from the restored id counter) and wrote {made}")
         logn = _peek_log(h["log"])
         for i, (name, field) in enumerate(obs["peeks"]):
             a, b = log1.get(i), logn.get(i)
@@ -1086,8 +1132,9 @@ def oracle(case, obs):
                 return f"row-missing: {nth} cannot see the just_once row {name!r}"
             if b[0] == "nofield":
                 if a[1][0] == "row":
-                    return (f"row-valued-field-dropped: {name!r}.{field!r} held a row of {a[1][1]!r} in the first run "
-                            f"and does not exist in {nth}")
+                    deferred = deferred or (f"row-valued-field-dropped: {name!r}.{field!r} held a row of "
+                                            f"{a[1][1]!r} in the first run and does not exist in {nth}")
+                    continue
                 return f"field-missing: {name!r}.{field!r} = {show(a[1])} in the first run does not exist in {nth}"
             if b[1] != a[1]:
                 return f"value-changed: {name!r}.{field!r} was {show(a[1])} in the first run and is {show(b[1])} in {nth}"
@@ -1116,7 +1163,7 @@ def oracle(case, obs):
         if d1 is not None and d2 is not None and d2[:len(d1)] != d1:
             return f"deps-not-restored: references {d1[:5]} of the file are {d2[:5]} after {nth}"
         prev_tree = t2
-    return None
+    return deferred
 
 
 # =============================================================================== findings
@@ -1224,7 +1271,7 @@ def gen_recipe_case(rng, findings=False, single=None):
     return {"kind": "recipe", "version": version, "route": "literal" if rng.random() < 0.3 else "plugin",
             "templates": templates, "hops": rng.choice([1, 1, 2, 3]), "chain": rng.choice([1, 2, 3, 4]),
             "today": rng.choice([None, [2001, 2, 3], [2024, 2, 29], [1, 1, 1], [9999, 12, 31], list(_random_date(rng))]),
-            "extra": rng.random() < 0.3}
+            "extra": rng.random() < 0.3, "target": rng.choice([None, None, 2, 3])}
 
 
 def gen_direct_case(rng, findings=False):
@@ -1416,6 +1463,7 @@ def stats(cases, obss):
             feats[f"hops{c['hops']}"] += 1
             feats[f"chain{c['chain']}"] += 1
             feats["today-moved" if o.get("shifted") else "today-kept"] += 1
+            feats[f"continued-until-{c.get('target')}-more-rows" if c.get("target") else "continued-one-iteration"] += 1
             if c.get("extra"):
                 feats["extra-template-in-continued-run"] += 1
             feats[f"templates{len(c['templates'])}"] += 1
@@ -1464,6 +1512,8 @@ def shrink(case):
             yield dict(case, chain=1)
         if case.get("extra"):
             yield dict(case, extra=False)
+        if case.get("target") == 3:
+            yield dict(case, target=2)
         if case.get("today"):
             yield dict(case, today=None)
         if case.get("route") == "literal":
